@@ -29,7 +29,8 @@ RULE = ("plan = fault point (before opening the file, mid-file, before/after han
         "after the last result) x file hit (first/middle/last of N) x workers in {2,4} x "
         "{os._exit, Python exception} x occurrence k, plus fault-free controls, plus task "
         "failures while the other tasks still hold more result batches than the (patched-down) "
-        "results queue can take; each followed "
+        "results queue can take, plus failures in the calling process (one file) followed by "
+        "runs that re-use the same search definitions; each followed "
         "by a second run in the same process; quick = a seeded sample of the plan space that "
         "always contains the in-lock crash points, thorough = the full enumeration x 3 seeds; "
         "non-trivial = the fault actually fired; distinct by plan")
@@ -77,6 +78,12 @@ def all_plans():
                 plans.append({'kind': 'raise', 'exc': 'OSError', 'point': 'mid_file', 'file': 0,
                               'k': k, 'workers': workers, 'nfiles': nfiles, 'gz': gz,
                               'decode': 'ignore'})
+    # a task failing in the CALLING process (single file, undecodable bytes inside an open
+    # section), then runs re-using the same search definition objects (1 file / 2 files)
+    for end in (True, False):
+        for files2 in (1, 2):
+            plans.append({'kind': 'inproc', 'point': 'decode', 'file': 0, 'workers': 2,
+                          'nfiles': 1, 'end': end, 'files2': files2})
     return plans
 
 
@@ -206,6 +213,20 @@ def judge(rep, item, mo, control):
     if 'run1' not in r:
         return fail("run() did not come back within %d s (stack dump in the replay file)"
                     % (BOUND * 2))
+    if plan['kind'] == 'inproc':
+        rep.count('in_process_failures')
+        lo, run2 = r.get('leftovers1'), r.get('run2')
+        if run1['outcome'] not in ('FileSearchException', 'UnicodeDecodeError'):
+            return fail(f"run() {run1['outcome']} on undecodable input under strict decoding")
+        if lo is None or run2 is None:
+            return fail("process stuck after the failed run")
+        if lo['children'] or lo['threads'] or not lo['store_lock_free']:
+            return fail(f"the failed run left behind {lo}")
+        if run2['outcome'] != 'returned' or run2['per_path'] != run2['fresh_defs']:
+            return fail("the following run in the same process, re-using the search definitions "
+                        f"of the failed run, gave {run2.get('per_path', run2['outcome'])}; with "
+                        f"fresh definition objects: {run2.get('fresh_defs')}")
+        return
     faulted = plan['kind'] != 'none' and run1.get('fired')
     if plan['kind'] != 'none' and not run1.get('fired'):
         rep.count('fault_not_reached')
@@ -268,6 +289,7 @@ def run(tier, seed, replay_case=None):
                  and p['point'] in ('mid_file', 'sync_inside', 'before_open')]
         must += [p for p in plans if p.get('big') and p['workers'] == 1
                  and p['point'] in ('none', 'before_open')]
+        must += [p for p in plans if p['kind'] == 'inproc']
         must += [p for p in plans if p.get('decode') and p.get('gz') and
                  (p['kind'] == 'none' or (p['k'] == 3 and p['workers'] == 2))]
         rest = [p for p in plans[2:] if p not in must]
